@@ -31,11 +31,19 @@ Definition res_code (r : res) : Z :=
   end.
 
 (** one step of a history: the operation, the outcome class observed, the jailed validators after it *)
-Inductive estep := EStep (o : op csig) (r : Z) (jailed : list Z).
+Inductive estep :=
+| EStep (o : op csig) (r : Z) (jailed : list Z)
+  (** a batch query of the real query server returned, for batch [key], BytesToSign = checkpoint of [c] *)
+| EServed (key : Z) (c : Z * Z * Z)
+  (** MsgConfirmBatch for batch [key] with a signature by the orchestrator's registered key over the
+      checkpoint of [c]: did the signature check pass *)
+| EConfirm (key : Z) (c : Z * Z * Z) (sig_ok : bool).
 
 Inductive case :=
 | CEvid (steps : list estep) (arch : list (Z * Z * Z * bool))
-| CPrune (sn : list (Z * Z)) (total : Z) (public error : bool) (evs : list (Z * Z * Z * bool))
+  (** [subs]: every MsgAddEvidence accepted, in order, re-submissions included; [evs]: the evidence
+      list read back from the real queue before pruning *)
+| CPrune (sn : list (Z * Z)) (total : Z) (public error : bool) (subs evs : list (Z * Z * Z * bool))
          (refuse : list Z) (calls : list Z) (jailed : list Z).
 
 Definition same_set (a b : list Z) : bool :=
@@ -47,6 +55,16 @@ Definition estep_ok (s : option state) (e : estep) : option state :=
   | Some s, EStep o r j =>
     let '(s', r') := exec ccp crecover code_cfg s o in
     if (res_code r' =? r) && same_set (st_jailed s') j then Some s' else None
+  | Some s, EServed key (t, b, e) =>
+    match served_bts ccp code_cfg s key with
+    | Some c => if c =? ccp t b e then Some s else None
+    | None => None
+    end
+  | Some s, EConfirm key (t, b, e) ok =>
+    match confirm_checks_against ccp code_cfg s key with
+    | Some c => if Bool.eqb (c =? ccp t b e) ok then Some s else None
+    | None => None
+    end
   end.
 
 Definition ikey (tag data : Z) : Z * Z := (tag, data).
@@ -55,6 +73,8 @@ Definition mk_ev (t : Z * Z * Z * bool) : evidence :=
   let '(v, tag, d, bad) := t in {| ev_val := v; ev_tag := tag; ev_data := d; ev_bad := bad |}.
 
 Definition zlist_eqb := list_eqb Z.eqb.
+Definition ev_eqb (a b : evidence) : bool :=
+  (ev_val a =? ev_val b) && (ev_tag a =? ev_tag b) && (ev_data a =? ev_data b) && Bool.eqb (ev_bad a) (ev_bad b).
 
 Definition check (c : case) : bool :=
   match c with
@@ -63,10 +83,11 @@ Definition check (c : case) : bool :=
     | None => false
     | Some s => forallb (fun '(t, b, e, a) => Bool.eqb (memz (ccp t b e) (st_archive s)) a) arch
     end
-  | CPrune sn total public error evs refuse calls jailed =>
+  | CPrune sn total public error subs evs refuse calls jailed =>
     let snap := {| sn_vals := sn; sn_total := total |} in
-    let m := {| pm_public := public; pm_error := error; pm_evs := map mk_ev evs |} in
+    let m := msg_of_submissions public error (map mk_ev subs) in
     let cs := prune_calls ikeqb ikey (fun g => g) snap m in
+    list_eqb ev_eqb (pm_evs m) (map mk_ev evs) &&
     zlist_eqb cs calls &&
     same_set (prune_job ikeqb ikey (fun g => g) (fun _ v => negb (memz v refuse)) snap [] m) jailed
   end.
